@@ -30,6 +30,19 @@ CHECKS = {
              "the standards is decided by C01/C02/C03). Depth-bounded: all sequences up to depth 2-3 are replayed, deeper ones are sampled.",
         technique="TLA+ object-layer state machines model-checked by TLC; spec->code replay of TLC behaviours; code->spec trace validation in TLC",
     ),
+    "C11": dict(
+        category="model_checking",
+        text="Models shaped like raw_ctr.c (byte-wise increment_be/le, 8-block look-ahead, length vs length_max) and chacha20.c (counter, buffered "
+             "block, usedKeyStream, seek) are model-checked exhaustively on scaled-down constants for every initial value and call sequence: the carry "
+             "loop is addition mod Base^W, consumed counter values never repeat (wrap through zero included), the error is raised exactly by the request "
+             "that would reuse a block and by every later one; the wrapping ChaCha20 variant is shown to violate the same properties. TLC-generated "
+             "request/seek sequences are scaled to real MODE_CTR (AES, 3DES; counter_len 1-3; prefix/suffix; both endiannesses), ChaCha20/XChaCha20 "
+             "and CCM objects; TLC judges every call's exception class against the limit and sampled key stream against E(counter block) / the RFC 8439 block function.",
+        design_ref="DESIGN.md section 6, C11",
+        note="Trusted: TLC; AES.tla and ChaChaPoly.tla transcriptions (pinned by FIPS 197 / RFC 8439 vectors); 3DES key stream is checked against the library's own "
+             "ECB of the specified counter block. Limits of counter_len >= 4, GCM's 2^39-256 bytes are not reached by volume; HPKE nonces are under C15.",
+        technique="TLA+ implementation-shaped counter models checked exhaustively by TLC; spec->code replay across the real limits; code->spec trace validation in TLC",
+    ),
 }
 
 NOT_APPLICABLE = {
